@@ -5,7 +5,7 @@ from rk import *
 def signers_hash_of_proof(proof):
     """keccak(xdr(WeightedSigners{signers: [s.signer for s in proof.signers], threshold: proof.threshold, nonce: proof.nonce}))"""
     el = ('elem', ('field', 'signers', proof))
-    return ('keccak', ('xdr', ('struct', 'types::WeightedSigners', (
+    return ('keccak', ('xdr', ('struct', 'WeightedSigners', (
         ('signers', ('vecmap', ('field', 'signer', el))),
         ('threshold', ('field', 'threshold', proof)),
         ('nonce', ('field', 'nonce', proof))))))
